@@ -629,7 +629,7 @@ func stepTerm(in StepIn, o StepObs) string {
 	}
 	return q.App("LC.MkStep", envTerm(in.Env, o.Order), cmdTerm(in.Cmd), usersTerm(in.Users), resTerm(o.Res),
 		q.List(ops), q.App("LC.MkDelta", q.HxList(o.Removed), fsTerm(o.Upsert)),
-		ktabTerm(o.Kernel.Tab), q.N(o.Kernel.NextID), q.N(o.Kernel.NextDev), layers)
+		ktabTerm(o.Kernel.Tab), q.N(o.Kernel.NextID), q.N(o.Kernel.NextDev), layers, q.HxList(o.CLI))
 }
 
 // CaseTerm renders the whole case as a term of type LC.case.
